@@ -58,6 +58,9 @@ def run(ctx):
     ctx.rule("R04.5", "insurance draw for a shortfall is added to prepaid_bad_debt with the same operand; mutated State is stored", 6)
 
     r04_7(ctx, em)
+    from .balance import balance_instances
+    ctx.rule("R04.8", "the vault balance that sizes insurance draws and payouts is the engine's own balance of the collateral token: the balance query asks for (token, account) as given in both collateral arms, every engine call site passes (config.eligible_collateral, env.contract.address)", 3)
+    balance_instances(ctx, "R04.8")
 
     close = em.reply_step("ClosePosition>id4")
     pclose = em.reply_step("ClosePosition>id5")
